@@ -73,7 +73,11 @@ class Builder:
         n = self.rng.randint(0, self.max_doc_lines)
         lines = [self.docline(self.rng, uid, k) for k in range(n)]
         if self.p_trigger and self.rng.random() < self.p_trigger and self.trigger:
-            lines.append(f"{{L{uid}.{n}}} {self.trigger} FOO: something")
+            # the trigger in the middle of a line or, as one writes a field, at its very start
+            if self.rng.random() < 0.5:
+                lines.append(f"{{L{uid}.{n}}} {self.trigger} FOO: something")
+            else:
+                lines.append(f"{self.trigger} FOO: something {{L{uid}.{n}}}")
         elif self.p_trigger and self.rng.random() < self.p_trigger and self.trigger:
             # near misses: a single word of a trigger that contains blanks, the trigger without its last character,
             # the trigger in another letter case -- none of them is the configured string
@@ -341,6 +345,9 @@ class Builder:
         kind = "cpp_constructor" if ctor else "cpp_member"
         it = Item(kind, kind, [nm, cls] + types, uid, doc=self.doc(uid), impl=impl, name=nm, params=pe, types=types)
         it.between = [x for x in self.gap_items() if x.kind != "cpp_attr"]
+        if r.random() < self.p_between:
+            # declarations first: an attribute of the class stands between the member declaration and its definition
+            it.between.insert(r.randint(0, len(it.between)), self.attr(cls))
         if it.between:
             self.unasserted_impl_names.add(impl.gt["name"])
         return it
@@ -354,6 +361,8 @@ class Builder:
         c.args = c.args[:2] + c.gt["types"]
         if c.doc is not None and self.rng.random() < 0.5:
             c.doc = None
+        elif c.doc is None and self.rng.random() < 0.4:
+            c.doc = self.doc(c.uid, True)          # the overload WITHOUT doccomment comes first, the documented one second
         self.clones += 1
         return c
 
@@ -361,7 +370,7 @@ class Builder:
         r = self.rng
         uid = self.new_uid()
         nm = self.name("att", uid)
-        dv = r.choice([None, None, "1", '"a string"', "${x}", "val", '""'])
+        dv = r.choice([None, None, "1", '"a string"', "${x}", "val", '""', '"    "', '"  |  "', '"a   b\tc"', "[[two  blanks]]"])
         args = [cls, nm] + ([dv] if dv is not None else [])
         return Item("cpp_attr", "cpp_attr", args, uid, doc=self.doc(uid), name=nm, default=dv)
 
